@@ -334,3 +334,26 @@ func HC15_LineLine3DSlice() {
 		"not larger than any endpoint-segment distance")
 	sym.Cover("end")
 }
+
+var _ = register("HC15_Degenerate2D", HC15_Degenerate2D)
+
+// HC15_Degenerate2D: xy.DistanceFromLineToLine with zero-length segments is the point-segment distance.
+func HC15_Degenerate2D() {
+	a, b, c := realCoord("a", 2, c15K), realCoord("b", 2, c15K), realCoord("c", 2, c15K)
+	useDistanceSummaries2D()
+	var r, want float64
+	switch sym.Choose("which", 0, 2) {
+	case 0:
+		r = xy.DistanceFromLineToLine(c, c, a, b)
+		want = ufPointSeg(c, a, b, 2)
+	case 1:
+		sym.Assume(sym.Not(sym.And(sym.FEq(a[0], b[0]), sym.FEq(a[1], b[1]))))
+		r = xy.DistanceFromLineToLine(a, b, c, c)
+		want = ufPointSeg(c, a, b, 2)
+	default:
+		r = xy.DistanceFromLineToLine(a, a, c, c)
+		want = ufPointSeg(a, c, c, 2)
+	}
+	sym.Assert(sym.FEq(r, want), "a zero-length segment behaves as a point")
+	sym.Cover("end")
+}
